@@ -7,7 +7,10 @@ PID = "C11"
 LEVEL_TEXT = ("Proof + correspondence: Coq theorems (all glyph sets, orders, name maps): the names handed out by the model of "
               "_build_production_names/_unique_name are pairwise distinct, one per glyph of the glyph set in glyph order; renaming "
               "by an injective map keeps every glyph at its index (so every other table refers to the same glyph indices); only "
-              "characters of the class read from GLYPH_NAME_INVALID_CHARS survive; the process_glyph_names decision table. The "
+              "characters of the class read from GLYPH_NAME_INVALID_CHARS survive; the process_glyph_names decision table; generated "
+              "names READ BACK: %04X printing and hex parsing are inverse, the name generated for every code point 0..10FFFF and "
+              "for every ligature of BMP parts decodes (Adobe rules, Order/Agl.v -- compared with fontTools.agl.toUnicode) to "
+              "exactly its code point(s). The "
               "Gallina model (uniXXXX/uXXXXX, suffix recursion, ligature parts, lib names, 63-char fallback, uniqueness counters) "
               "is compared with PostProcessor._build_production_names on generated glyph sets, and an executable spec (unique, "
               "legal, lib names used) is evaluated on the implementation's map. Directly observed: per-table bytes of fonts "
@@ -130,7 +133,57 @@ def explore(ctx):
             ctx.corr_mismatch(case, "Gallina rename_map differs from _build_production_names")
     if meta:
         ctx.sample(meta[0])
+    agl_correspondence(ctx, [b for m in meta for _, b in m["impl_rename_map"]])
     compile_level(ctx)
+
+
+def agl_correspondence(ctx, finals):
+    """the Gallina reader of generated names (Order/Agl.v, about which the decoding theorems are proved) against
+    fontTools.agl.toUnicode, on the final names the implementation produced and on malformed variants of them
+    (domain: components of the form uni<HEX>+ / u<HEX>+, scalar values only)"""
+    import re
+    from fontTools import agl
+    rng = ctx.subrng("agl")
+    names = set()
+    for f in finals:
+        names.add(f)
+        if f.startswith("u"):
+            names.add(f[:-1]); names.add(f + "0"); names.add(f.replace("_", "", 1)); names.add(f + "_" + f)
+    for _ in range(ctx.budget(150, 1500)):
+        k = rng.random()
+        v = rng.choice([rng.randint(1, 0xFFFF), rng.randint(0x10000, 0x10FFFF), 0x41, 0xFFFF, 0x10000, 0x10FFFF, 0xD7FF, 0xE000])
+        comp = ("uni%04X" % v if v <= 0xFFFF else "u%04X" % v) if k < 0.5 else rng.choice(["uni", "u"]) + "".join(rng.choice("0123456789ABCDEF") for _ in range(rng.randint(1, 9)))
+        if rng.random() < 0.3:
+            comp += "_" + ("uni%04X%04X" % (rng.randint(1, 0xD7FF), rng.randint(1, 0xD7FF)))
+        if rng.random() < 0.3:
+            comp += rng.choice([".alt", ".1", ".sc.1"])
+        names.add(comp)
+    ok = re.compile(r"^(uni[0-9A-F]+|u[0-9A-F]+)$")
+    cases, meta = [], []
+    for nm in sorted(names):
+        comps = nm.split(".")[0].split("_")
+        if not nm or not all(ok.match(c) for c in comps):
+            continue
+        vals = []
+        bad = False
+        for c in comps:
+            digits = c[3:] if c.startswith("uni") else c[1:]
+            chunks = [digits[j:j + 4] for j in range(0, len(digits), 4)] if c.startswith("uni") else [digits]
+            if any(0xD800 <= int(ch, 16) <= 0xDFFF or int(ch, 16) > 0x10FFFF for ch in chunks if ch):
+                bad = True
+        if bad:
+            continue
+        ft = [agl.toUnicode(c) for c in comps]
+        want = None if any(x == "" for x in ft) else [ord(ch) for x in ft for ch in x]
+        cases.append(G.tup(G.s(nm), "(@None (list Z))" if want is None else "(Some %s)" % G.lst([G.z(v) for v in want], "Z")))
+        meta.append({"name": nm, "fontTools_agl_toUnicode": want})
+        ctx.count(); ctx.klass("agl-reader")
+    vals = ctx.coq_eval("From U2F Require Import Base.Prelude Order.ProdNames Order.Agl.",
+                        "fun c : (str * option (list Z)) => if option_eqb (list_eqb Z.eqb) (agl_decode (fst c)) (snd c) then 3 else 2",
+                        cases, chunk=500, tag="Agl")
+    for v, case in zip(vals, meta):
+        if v is not None and v != 3:
+            ctx.corr_mismatch(case, "Gallina agl_decode differs from fontTools.agl.toUnicode on a generated-style name")
 
 
 def compile_level(ctx):
